@@ -41,6 +41,9 @@ def setup_env() -> Path:
     os.environ["SEMGREP_ENABLE_VERSION_CHECK"] = "0"
     os.environ["SEMGREP_SEND_METRICS"] = "off"
     os.environ.setdefault("PYTHONDONTWRITEBYTECODE", "1")
+    import logging
+
+    logging.lastResort = logging.NullHandler()  # codemodder logs exceptions it handles
     base = Path(os.environ.get("VERIF_TMP_BASE", "/var/tmp"))
     base.mkdir(parents=True, exist_ok=True)
     d = Path(tempfile.mkdtemp(prefix="verif-", dir=str(base)))
